@@ -78,6 +78,30 @@ def write_evidence(uid, ev):
     return path
 
 
+def _search(p, work):
+    """bounded SEARCH for a postcondition counterexample after the loop contracts of proof p stopped fitting: iterative deepening
+    over the unwinding bound of the loops of the code under test (a small bound is often enough and the larger one may exhaust
+    memory).  Returns (q, rq, failed postconditions, 'bound:status ...')."""
+    import copy
+    tried = []
+    q = rq = None
+    for bound in [int(x) for x in os.environ.get('VERIF_FALLBACK_UNWIND', '2,4').split(',')]:
+        q = copy.copy(p)
+        q.id = p.id + '.search'
+        q.loop_contracts = False
+        q.expect_loops = 0
+        q.unwind = bound
+        q.no_unwinding_assertions = True
+        q.timeout = min(p.timeout, 1200)
+        rq = q.run(work)
+        pf = [o for o in rq.get('obligations', []) if o['status'] != 'SUCCESS' and '.postcondition.' in (o['name'] or '') and not (o['name'] or '').startswith('free.')]
+        tried.append('%d:%s' % (bound, rq.get('status')))
+        if rq['status'] in ('pass', 'fail') and pf:
+            return q, rq, pf, ' '.join(tried)
+    return q, rq, [], ' '.join(tried)
+
+
+
 def check(uid, tier, seed=0, only=None, keep=False):
     t0 = time.time()
     um = load_unit(uid)
@@ -110,7 +134,7 @@ def check(uid, tier, seed=0, only=None, keep=False):
             p.loop_contracts = False
             p.expect_loops = 0
             p.kind = 'bounded'
-            p.unwind = int(os.environ.get('VERIF_FALLBACK_UNWIND', '4'))
+            p.unwind = int(os.environ.get('VERIF_FALLBACK_UNWIND', '2,4').split(',')[-1])
             p.no_unwinding_assertions = True
             p.bound_text = 'loop structure of %s changed (%s): bounded search, loops unwound %d times' % (p.enforce, unitmod.LOOP_MISMATCH[p.enforce], p.unwind)
             fallback[p.id] = p.bound_text
@@ -128,12 +152,24 @@ def check(uid, tier, seed=0, only=None, keep=False):
     for p, r in zip(proofs, results):
         solver_time[p.id] = r.get('solver_time_s')
         fid = getattr(p, 'finding', None)
+        if r['status'] == 'tool-error' and p.loop_contracts and 'goto-instrument failed' in (r.get('detail') or '') and p.id not in fallback:
+            # the loop-contract instrumentation itself gave up (typically: a newly extracted helper with a loop of its own inside
+            # a contracted loop).  Proving is off; search the postconditions for a counterexample instead.
+            q, rq, pf, tried = _search(p, work)
+            if pf:
+                bounded.append({'proof': q.id, 'bound': 'loops unwound %d times (search after the loop-contract instrumentation failed for %s)' % (q.unwind, p.id), 'obligations': len(rq['obligations']), 'failed': len(pf)})
+                for o in pf:
+                    violations.append((q, rq, o))
+                continue
+            undecided.append('%s: loop-contract instrumentation failed and the bounded search (loops unwound %d times) found no postcondition violation [search bound:status %s %s]: %s'
+                             % (p.id, q.unwind, tried, (rq.get('detail') or '')[-200:], (r.get('detail') or '')[-200:]))
+            continue
         if r['status'] in ('tool-error', 'timeout'):
             undecided.append('%s: %s %s' % (p.id, r['status'], (r.get('detail') or '')[:1500]))
             continue
         obs = r['obligations']
         failed = [o for o in obs if o['status'] != 'SUCCESS']
-        model_limit = [o for o in failed if 'MODEL-LIMIT' in (o.get('description') or '')]
+        model_limit = [o for o in failed if 'MODEL-LIMIT' in (o.get('description') or '') or 'undefined function should be unreachable' in (o.get('description') or '')]
         if model_limit:
             undecided.append('%s: model limit reached: %s' % (p.id, model_limit[0]['description']))
             continue
@@ -141,9 +177,13 @@ def check(uid, tier, seed=0, only=None, keep=False):
         # simply not fit a restructured loop any more.  A bounded search for a postcondition counterexample decides what is
         # reported: found -> VIOLATION (named postcondition); not found -> UNDECIDED, not an alarm.
         fn_locals = set()
+        helper_locals = {}
         for f_ in unit.get('functions', []):
             if f_.get('cname') == p.enforce:
                 fn_locals = set(f_.get('locals', []))
+            elif (f_.get('cname') or '').startswith('auto_'):
+                # auto-lowered helper (no contract of its own, verified inline): its locals written inside a contracted loop of the caller
+                helper_locals[f_['cname']] = set(f_.get('locals', []))
 
         def scaffold(o):
             if re.search(r'loop_invariant_(base|step)|loop_decreases|loop_assigns|loop_step_unwinding', o['name'] or ''):
@@ -151,27 +191,20 @@ def check(uid, tier, seed=0, only=None, keep=False):
             # a LOCAL of the function under contract missing from a loop's assigns clause (e.g. a temporary hoisted out of
             # the loop by a refactoring) is scaffolding too; a write to a parameter's pointee, a member or ghost state is not
             m = re.match(r'Check that ([A-Za-z_]\w*)(\W.*)? is assignable', o.get('description') or '')
-            return bool(m and re.search(r'\.assigns\.\d+$', o['name'] or '') and m.group(1) in fn_locals)
+            if not (m and re.search(r'\.assigns\.\d+$', o['name'] or '')):
+                return False
+            return m.group(1) in fn_locals or m.group(1) in helper_locals.get((o['name'] or '').split('.')[0], ())
         if failed and p.loop_contracts and not getattr(p, 'finding', None) and all(scaffold(o) for o in failed) and p.id not in fallback:
-            import copy
-            q = copy.copy(p)
-            q.id = p.id + '.search'
-            q.loop_contracts = False
-            q.expect_loops = 0
-            q.unwind = int(os.environ.get('VERIF_FALLBACK_UNWIND', '4'))
-            q.no_unwinding_assertions = True
-            q.timeout = min(p.timeout, 1200)
-            rq = q.run(work)
-            pf = [o for o in rq.get('obligations', []) if o['status'] != 'SUCCESS' and '.postcondition.' in (o['name'] or '') and not (o['name'] or '').startswith('free.')]
-            if rq['status'] in ('pass', 'fail') and pf:
+            q, rq, pf, tried = _search(p, work)
+            if pf:
                 bounded.append({'proof': q.id, 'bound': 'loops unwound %d times (search after a loop-contract failure in %s)' % (q.unwind, p.id), 'obligations': len(rq['obligations']), 'failed': len(pf)})
                 for o in pf:
                     violations.append((q, rq, o))
                 n_ob += len(obs) - len(failed)
                 n_ok += len(obs) - len(failed)
                 continue
-            undecided.append('%s: loop contract no longer fits (%s fails) and the bounded search (loops unwound %d times) found no postcondition violation: undecided, not an alarm'
-                             % (p.id, label_of(failed[0], p), q.unwind))
+            undecided.append('%s: loop contract no longer fits (%s fails) and the bounded search (loops unwound %d times) found no postcondition violation [search bound:status %s]: undecided, not an alarm'
+                             % (p.id, label_of(failed[0], p), q.unwind, tried))
             continue
         # vacuity: every labelled postcondition must appear among the reported obligations
         want = getattr(p, 'expect_post', 0)
